@@ -62,8 +62,20 @@ def make_driver():
             f"esac"
         )
 
-    def _cmds(exe, key, planroot, arg):
-        return [(f"{exe} -c {shlex.quote(_script0(key, planroot, arg))}", None), (f"{exe} -c {shlex.quote(_script(key, planroot, arg))}", "calc")]
+    MISSING = "/nonexistent/vf-missing-exe"
+    OPTS = {"strfiles": False}     # (prep's `self` is the bound job, not the driver: the switch lives in this closure)
+
+    def _cmds(exe, key, planroot, arg, broken=()):
+        # `key` in broken: no command of the unit can be started; "late:"+key: only the SECOND command cannot (the first one has run by then)
+        exe0 = MISSING if key in broken else exe
+        exe1 = MISSING if (key in broken or "late:" + key in broken) else exe
+        return [(f"{exe0} -c {shlex.quote(_script0(key, planroot, arg))}", None), (f"{exe1} -c {shlex.quote(_script(key, planroot, arg))}", "calc")]
+
+    def _files(self, M, farg):
+        # input files as bytes (what the bundled drivers pass) or as str (which the runner accepts just as well)
+        if OPTS["strfiles"]:
+            return {"m.xyz": M.dumps_xyz(), "param.txt": str(farg)}
+        return {"m.xyz": M.dumps_xyz().encode(), "param.txt": str(farg).encode()}
 
     def _key(M):
         cid = getattr(M, "_conf_id", None)
@@ -76,8 +88,8 @@ def make_driver():
         @Job(return_files=("result.txt",)).prep
         def calc(self, M, planroot=None, arg=0, broken=(), farg=0, earg=0):
             # `arg` goes into the command line, `farg` only into the CONTENT of an input file, `earg` only into the VALUE of an environment variable
-            return JobInput(M.name, commands=_cmds(self.executable if _key(M) not in broken else "/nonexistent/vf-missing-exe", _key(M), planroot, arg),
-                            files={"m.xyz": M.dumps_xyz().encode(), "param.txt": str(farg).encode()}, return_files=self.return_files, envars={"VF_EARG": str(earg)})
+            return JobInput(M.name, commands=_cmds(self.executable, _key(M), planroot, arg, broken),
+                            files=_files(self, M, farg), return_files=self.return_files, envars={"VF_EARG": str(earg)})
 
         @calc.post
         def calc(self, out, M, planroot=None, arg=0, broken=(), farg=0, earg=0):
@@ -97,12 +109,13 @@ def make_driver():
             new.attrib["results"] = texts
             return new
 
-        # post-processor that only reads stdout (never notices by itself that the run failed)
-        @Job(return_files=("result.txt",)).prep
+        # post-processor that only reads stdout (never notices by itself that the run failed); the file it asks back is one of its
+        # own input files, so "every requested file exists" holds as soon as the scratch directory is populated
+        @Job(return_files=("param.txt",)).prep
         def lenient(self, M, planroot=None, arg=0, broken=(), farg=0, earg=0):
             # `arg` goes into the command line, `farg` only into the CONTENT of an input file, `earg` only into the VALUE of an environment variable
-            return JobInput(M.name, commands=_cmds(self.executable if _key(M) not in broken else "/nonexistent/vf-missing-exe", _key(M), planroot, arg),
-                            files={"m.xyz": M.dumps_xyz().encode(), "param.txt": str(farg).encode()}, return_files=self.return_files, envars={"VF_EARG": str(earg)})
+            return JobInput(M.name, commands=_cmds(self.executable, _key(M), planroot, arg, broken),
+                            files=_files(self, M, farg), return_files=self.return_files, envars={"VF_EARG": str(earg)})
 
         @lenient.post
         def lenient(self, out, M, planroot=None, arg=0, broken=(), farg=0, earg=0):
@@ -122,7 +135,9 @@ def make_driver():
             new.attrib["results"] = texts
             return new
 
-    return CDriver(check_exe=True)
+    drv = CDriver(check_exe=True)
+    drv.vf_opts = OPTS
+    return drv
 
 
 def outcome(plan, n):
@@ -231,6 +246,8 @@ def check(r) -> list[Fail]:
                 pre, foreign = [], []
             all_units = [u for k in keys for u in units[k]]
             broken = sorted({all_units[i % len(all_units)] for i in run.get("broken", [])})   # units whose executable cannot be started in this run
+            late = sorted({all_units[i % len(all_units)] for i in run.get("late", [])} - set(broken))   # units whose SECOND command cannot be started
+            drv.vf_opts["strfiles"] = bool(r.get("strfiles"))
             job = getattr(drv, jobname)
             before_counts = dict(count)
             try:
@@ -238,8 +255,8 @@ def check(r) -> list[Fail]:
                     warnings.simplefilter("ignore")
                     jobmap(job, src, dst, cache_dir=cache_dir, scratch_dir=scratch, n_workers=[4, 1, 2, 4][ri % 4 if r.get("posargs") else 0],
                            # job arguments handed over positionally (args=) in some histories, by keyword in the others
-                           **({"args": (planroot, arg), "kwargs": {"broken": tuple(broken), "farg": farg, "earg": earg}} if r.get("posargs") else
-                              {"kwargs": {"planroot": planroot, "arg": arg, "broken": tuple(broken), "farg": farg, "earg": earg}}), progress=False, log_level="critical", **({"strict_hash": False} if run.get("lax") else {}))
+                           **({"args": (planroot, arg), "kwargs": {"broken": tuple(broken) + tuple("late:" + u for u in late), "farg": farg, "earg": earg}} if r.get("posargs") else
+                              {"kwargs": {"planroot": planroot, "arg": arg, "broken": tuple(broken) + tuple("late:" + u for u in late), "farg": farg, "earg": earg}}), progress=False, log_level="critical", **({"strict_hash": False} if run.get("lax") else {}))
             except Exception as e:
                 s = exc_sig(e)
                 if s is None:
@@ -255,7 +272,7 @@ def check(r) -> list[Fail]:
                 texts, ok_all = [], True
                 for u in units[k]:
                     c = cache.get(u)
-                    hkey = (arg, farg, earg, u in broken)      # everything the input consists of: command line, file contents, environment values
+                    hkey = (arg, farg, earg, u in broken, u in late)      # everything the input consists of: command line, file contents, environment values
                     # strict_hash=False (the caller's explicit choice): any successful cached output of the unit is taken, whatever its input was
                     if c is not None and (c[0] == hkey or run.get("lax")) and c[1]:
                         texts.append(c[2])
@@ -266,7 +283,12 @@ def check(r) -> list[Fail]:
                         continue
                     n = count[u] + 1
                     exp_exec[u] = 1
-                    ok = outcome(plan[u], n)
+                    if u in late and not (plan[u] == "prepfail" or (plan[u] == "prepfail1" and n < 2)):
+                        # the first command ran (attempt counted), the second cannot be started: the runner dies, no output is written
+                        count[u] = n
+                        ok_all = False
+                        continue
+                    ok = outcome(plan[u], n) or (r["lenient"] and plan[u] == "nofile")   # the lenient job does not ask for result.txt
                     txt = f"R {u} {arg}/{farg}/{earg} {n}"
                     cache[u] = (hkey, ok, txt)
                     count[u] = n
@@ -341,6 +363,9 @@ def classify(r):
         lab.append("cache_polluted")
     if any(run.get("new_dest") for run in r["runs"][1:]):
         lab.append("fresh_destination_same_cache")
+    lab.append("input_files=str" if r.get("strfiles") else "input_files=bytes")
+    if any(run.get("late") for run in r["runs"]):
+        lab.append("second_command_cannot_start_somewhere")
     if any(run.get("broken") for run in r["runs"]):
         lab.append("executable_missing_in_some_run")
     if any(ev[0] == "delete" for run in r["runs"] for ev in run["cache_events"]):
@@ -353,13 +378,14 @@ def strat(tier):
     item = st.fixed_dictionaries({"nconf": st.integers(1, 3), "plans": st.lists(planv, min_size=1, max_size=3)})
     ev = st.one_of(st.tuples(st.just("delete"), st.integers(0, 20)).map(list), st.tuples(st.just("pollute"), st.integers(0, 20), st.integers(0, 20)).map(list))
     run = st.fixed_dictionaries({"arg": st.sampled_from([0, 0, 0, 1, 2]), "farg": st.sampled_from([0, 0, 0, 1]), "earg": st.sampled_from([0, 0, 0, 1]), "cache_events": st.lists(ev, max_size=2), "new_dest": st.sampled_from([False, False, True]), "lax": st.sampled_from([False, False, False, True]),
-                                 "broken": st.one_of(st.just([]), st.just([]), st.lists(st.integers(0, 20), min_size=1, max_size=2))})
+                                 "broken": st.one_of(st.just([]), st.just([]), st.lists(st.integers(0, 20), min_size=1, max_size=2)),
+                                 "late": st.one_of(st.just([]), st.just([]), st.lists(st.integers(0, 20), min_size=1, max_size=2))})
     return st.fixed_dictionaries({
         "vec": st.booleans(), "lenient": st.booleans(),
         "items": st.lists(item, min_size=2, max_size=4 if tier == "quick" else 5),
         "pre_source_keys": st.lists(st.integers(0, 9), max_size=2), "n_foreign": st.sampled_from([0, 0, 1, 2]),
         "runs": st.lists(run, min_size=2, max_size=3 if tier == "quick" else 4),
-        "posargs": st.booleans(),
+        "posargs": st.booleans(), "strfiles": st.booleans(),
     })
 
 
